@@ -5,7 +5,8 @@
 // split_factor 2..=5 x max_set_size 1..=3: alice holds k0..k{n-1} (n in 4..=11, one author), bob lacks one entry (every choice) or holds
 // one extra newer entry; both choices of initiator. Each session must end within 64 messages, both sides must hold the join, a second
 // session must transfer nothing, sent and received value counts must mirror. (Replica::sync_process_message only ever uses the default
-// config; the property quantifies over every legal setting.)
+// config; the property quantifies over every legal setting.) Second family: one side holds a band k[lo..hi) (lo in 0..=4, hi in 8..=12) of
+// twelve keys, the other side all twelve, both initiators: the wrap-around range is itself split again.
 #[cfg(test)]
 mod verif_rp_c01_config {
     use super::*;
@@ -75,5 +76,39 @@ mod verif_rp_c01_config {
             }
         } }
         println!("c01_config: {sessions} sessions");
+    }
+
+    /// second family: one side holds a band k[lo..hi) of the keys k00..k11, the other all twelve - so that the side that splits first has
+    /// neighbours below its smallest and above its greatest key on the other side, and the wrap-around range (greatest pivot .. smallest pivot)
+    /// is itself split again there (sub-ranges that straddle the wrap point)
+    #[tokio::test]
+    async fn every_config_converges_when_the_wrap_around_range_is_split_again() {
+        let mut rng = rand::rng();
+        let author = Author::new(&mut rng);
+        let base = std::time::SystemTime::now().duration_since(std::time::UNIX_EPOCH).unwrap().as_micros() as u64 - 1_000_000;
+        let mut sessions = 0usize;
+        for split_factor in 2..=5usize { for max_set_size in 1..=3usize {
+            let config = SyncConfig { max_set_size, split_factor };
+            for lo in 0..=4usize { for hi in 8..=12usize { for full_initiates in [true, false] {
+                let ns = NamespaceSecret::new(&mut rng);
+                let mut a_store = DocStore::memory();
+                let mut b_store = DocStore::memory();
+                let mut band = a_store.new_replica(ns.clone()).unwrap();
+                let mut full = b_store.new_replica(ns.clone()).unwrap();
+                let mk = |i: usize| SignedEntry::from_parts(&ns, &author, format!("k{i:02}").as_bytes(), Record::new(iroh_blobs::Hash::new(format!("v{i}")), 3, base + 10));
+                for i in 0..12 { let _ = full.store.put(mk(i)).unwrap(); if lo <= i && i < hi { let _ = band.store.put(mk(i)).unwrap(); } }
+                let mut want: Vec<SignedEntry> = (0..12).map(mk).collect();
+                want.sort();
+                let _ = if full_initiates { session(&config, &mut full, &mut band).await } else { session(&config, &mut band, &mut full).await };
+                let (ea, eb) = (entries(&mut band), entries(&mut full));
+                let ctx = format!("split_factor={split_factor} max_set_size={max_set_size} band=k{lo:02}..k{hi:02} of k00..k11, the side holding all twelve initiates: {full_initiates}");
+                assert_eq!(ea, eb, "WITNESS replicas hold different entries after a complete session ({ctx})");
+                assert_eq!(ea, want, "WITNESS replicas did not converge to the join ({ctx})");
+                let (a2, b2, ai2, bi2, _) = session(&config, &mut band, &mut full).await;
+                assert_eq!((a2 + b2, ai2 + bi2), (0, 0), "WITNESS a second session still transferred entries ({ctx})");
+                sessions += 1;
+            } } }
+        } }
+        println!("c01_config: {sessions} band sessions");
     }
 }
